@@ -64,7 +64,9 @@ func memberSpec(m c01Member) (Spec, cfg.Config, error) {
 		if err != nil {
 			return s, cfg.Config{}, err
 		}
-		s.Files = append(s.Files, File{Name: fmt.Sprintf("f%02d.yaml", i), Content: text})
+		// the files are passed as separate -i patterns in this order; their names sort differently
+		// (m00, c01, x02, a03, ...), so "order of the patterns" and "lexical order of the paths" disagree
+		s.Files = append(s.Files, File{Name: fmt.Sprintf("%c%02d.yaml", "mcxatb"[i%6], i), Content: text})
 	}
 	s.Flags = sut.Flags{Stub: m.Stub}
 	return s, ref.Merge(m.Files...), nil
